@@ -288,6 +288,15 @@ func checkPrevails(c *buildCase, full *dhcpv4.DHCPv4) []clauseFail {
 		ok = sameIP(full.ClientIPAddr, ipOpt(a[1]))
 	case "gi":
 		ok = sameIP(full.GatewayIPAddr, ipOpt(a[1]))
+	case "yi":
+		ok = sameIP(full.YourIPAddr, ipOpt(a[1]))
+	case "si":
+		ok = sameIP(full.ServerIPAddr, ipOpt(a[1]))
+	case "relay":
+		// WithRelay(ip): "parameters required for DHCPv4 to be relayed by the relay server
+		// with given ip" - relayed packets are unicast and carry the relay in giaddr;
+		// whatever the packet held before (seeded change C15-15)
+		ok = sameIP(full.GatewayIPAddr, ipOpt(a[1])) && !full.IsBroadcast()
 	case "xid":
 		ok = bytes.Equal(full.TransactionID[:], unhx(a[1]))
 	case "hw":
